@@ -252,7 +252,7 @@ mutual
     | .doS e => (toExpr e).map fun x => [.doS x]
     | .raise n => some [.raiseS (strOf n)]
     | .ifS rules els =>
-      match toRules rules, (match els with | none => some [] | some b => (toBlock b).map fun x => [(none, x)]) with
+      match toRules rules, toElse els with
       | some rs, some e => some [.ifS (rs ++ e)]
       | _, _ => none
     | .whileS c body =>
@@ -275,6 +275,9 @@ mutual
   def toNext : Option PStmt → Option (List Stmt)
     | none => some []
     | some s => toStmts s
+  def toElse : Option (List PStmt) → Option (List (Option Expr × List Stmt))
+    | none => some []
+    | some b => (toBlock b).map fun x => [(none, x)]
   def toBlock : List PStmt → Option (List Stmt)
     | [] => some []
     | s :: ss =>
@@ -296,5 +299,83 @@ mutual
 end
 
 def toProgram (p : List PStmt) : Option (List Stmt) := toBlock p
+
+/-! ## Normal form of statements and programs; side conditions of the statement round trip -/
+
+mutual
+  /-- `norm` applied to every expression of a statement (the only change a round trip may make) -/
+  def normS : PStmt → PStmt
+    | .nop => .nop
+    | .brk => .brk
+    | .cont => .cont
+    | .trace e => .trace (norm e)
+    | .ret none => .ret none
+    | .ret (some e) => .ret (some (norm e))
+    | .letS n e nx => .letS n (norm e) (normNext nx)
+    | .letn n ty nx => .letn n ty (normNext nx)
+    | .print args => .print (normArgs args)
+    | .put args => .put (normArgs args)
+    | .doS e => .doS (norm e)
+    | .raise n => .raise n
+    | .ifS rules els => .ifS (normRules rules) (match els with | some b => some (normB b) | none => none)
+    | .whileS c body => .whileS (norm c) (normB body)
+    | .forS v b e step dir body =>
+      .forS v (norm b) (norm e) (match step with | some s => some (norm s) | none => none) dir (normB body)
+    | .forall v e dir body => .forall v (norm e) dir (normB body)
+    | .begin body catches => .begin (normB body) (normCatches catches)
+    | .func n params rt body catches => .func n params rt (normB body) (normCatches catches)
+  def normNext : Option PStmt → Option PStmt
+    | none => none
+    | some s => some (normS s)
+  def normCatches : List (Bytes × List PStmt) → List (Bytes × List PStmt)
+    | [] => []
+    | (n, b) :: cs => (n, normB b) :: normCatches cs
+  def normRules : List (PExpr × List PStmt) → List (PExpr × List PStmt)
+    | [] => []
+    | (c, b) :: rs => (norm c, normB b) :: normRules rs
+  def normB : List PStmt → List PStmt
+    | [] => []
+    | s :: ss => normS s :: normB ss
+end
+
+/-- normal form of a program -/
+def normP (p : List PStmt) : List PStmt := normB p
+
+/-- The side condition of print / put lists, explicit and decidable: `PRINTStatement::unparse` separates the items by
+ONE blank, so the item `b` that follows `a` must start with a token that does not continue an expression — not a
+binary operator (a sign: `X` `-1` would read back as `X - 1`), and not `(` when `a` ends with a bare name (`X` `(…)`
+reads back as a call: `printAdj`, finding C12.print_items_fuse). `stops9` is `C12L.Stops 9` spelled out here. -/
+def stops9 (t : Tok) : Bool :=
+  (opAt 2 t).isNone && (opAt 4 t).isNone && (opAt 5 t).isNone && (opAt 6 t).isNone && (opAt 7 t).isNone &&
+  (opAt 8 t).isNone && (opAt 9 t).isNone && t.code != cDOT && t.code != cAT
+
+def sepOk (a b : PExpr) : Bool :=
+  match toksExpr b with
+  | t :: _ => stops9 t && (!endsVar a || t.code != cLP)
+  | [] => false
+
+def itemsSep : List PExpr → Bool
+  | a :: b :: rest => sepOk a b && itemsSep (b :: rest)
+  | _ => true
+
+/-- Statements without a block ("flat"), well formed: the domain of `C12.stmt_roundtrip_flat`. -/
+def wfFlat : PStmt → Bool
+  | .nop | .brk | .cont => true
+  | .trace e => wf e
+  | .ret none => true
+  | .ret (some e) => wf e
+  | .letS n e none => nameOk n && wf e
+  | .letS n e (some s) => nameOk n && wf e && wfFlat s
+  | .letn n ty none => nameOk n && typeKws.contains ty
+  | .letn n ty (some s) => nameOk n && typeKws.contains ty && wfFlat s
+  | .print args => wfArgs args && itemsSep args
+  | .put args => wfArgs args && itemsSep args
+  | .doS e => wf e
+  | .raise n => nameOk n
+  | _ => false
+
+def wfFlatB : List PStmt → Bool
+  | [] => true
+  | s :: ss => wfFlat s && wfFlatB ss
 
 end BlocV.Roundtrip
